@@ -105,7 +105,7 @@ func level(e *R) int {
 		}
 		return lMul
 	case KNeg, KPos:
-		return lAdd
+		return lMul
 	case KProj:
 		return lProj
 	}
@@ -315,9 +315,9 @@ func show(p int, e *R) string {
 		}
 		body = show(lv, e.L) + " " + e.Op + " " + show(lv+1, e.Rt)
 	case KNeg:
-		body = "- " + show(lMul, e.Rt)
+		body = "- " + show(lProj, e.Rt)
 	case KPos:
-		body = "+ " + show(lMul, e.Rt)
+		body = "+ " + show(lProj, e.Rt)
 	case KCall:
 		parts := make([]string, len(e.Args))
 		for i, a := range e.Args {
